@@ -91,9 +91,16 @@ def dg(emb, v):
     return list(emb["dig"][str(v)])
 
 
+def sc(emb, case, kind, v):
+    return emb["scal"][case.get("mode", 0)][kind][v]
+
+
 def pb_expected(case, emb):
     o, n = case["out"], case["n"]
-    v = [o["nslots"], o["asset"] * emb["asset"], o["fee"] * emb["fee"]] + dg(emb, o["block"]) + [o["number"] * emb["number"]]
+    # with no real slot the header fee / number are the literal zero, not the embedding of the model value 0
+    none_real = o["block"] == 0
+    v = ([o["nslots"], sc(emb, case, "asset", o["asset"]), 0 if none_real else sc(emb, case, "fee", o["fee"])] + dg(emb, o["block"])
+         + [0 if none_real else sc(emb, case, "number", o["number"])])
     for s in o["slots"]:
         v += [s[0] * emb["amt_unit"]] + dg(emb, s[1])
     for x in o["nulls"]:
@@ -103,7 +110,9 @@ def pb_expected(case, emb):
 
 def qb_expected(case, emb):
     o = case["out"]
-    v = dg(emb, o["addr"]) + [o["asset"] * emb["asset"], o["fee"] * emb["fee"]] + dg(emb, o["block"]) + [o["number"] * emb["number"], o["total"]]
+    none_real = o["block"] == 0
+    z = lambda kind: 0 if none_real else sc(emb, case, kind, o[kind])
+    v = dg(emb, o["addr"]) + [z("asset"), z("fee")] + dg(emb, o["block"]) + [z("number"), o["total"]]
     for s in o["slots"]:
         v += [s[0] * emb["amt_unit"]] + dg(emb, s[1])
     for x in o["nulls"]:
@@ -137,6 +146,7 @@ def pb_replay(ctx, cases, tally, attack_share, rng):
         c["attacks"] = 1 if rng.random() < attack_share else 0
         c["pick"] = rng.randrange(1 << 30)
         c["kind"] = "model"
+        c["mode"] = idx % 3
         work.append(c)
     nbase = len(work)
     for idx in range(nbase):
@@ -146,7 +156,7 @@ def pb_replay(ctx, cases, tally, attack_share, rng):
             p = list(range(n))
             while p == list(range(n)):
                 rng.shuffle(p)
-            work.append({"n": n, "ch": [c["ch"][k] for k in p], "hh": [c["hh"][k] for k in p], "kind": "perm", "base": idx, "attacks": 0})
+            work.append({"n": n, "ch": [c["ch"][k] for k in p], "hh": [c["hh"][k] for k in p], "kind": "perm", "base": idx, "attacks": 0, "mode": c["mode"]})
         dummies = [k for k in range(n) if is_dummy(c["ch"][k])]
         if dummies and rng.random() < 0.7:
             k = rng.choice(dummies)
@@ -155,7 +165,7 @@ def pb_replay(ctx, cases, tally, attack_share, rng):
             nv = rng.choice([v for v in alt if v != c["ch"][k][fld]])
             ch2 = [dict(x) for x in c["ch"]]
             ch2[k][fld] = nv
-            work.append({"n": n, "ch": ch2, "hh": c["hh"], "kind": "alt", "base": idx, "slot": k, "field": fld, "attacks": 0})
+            work.append({"n": n, "ch": ch2, "hh": c["hh"], "kind": "alt", "base": idx, "slot": k, "field": fld, "attacks": 0, "mode": c["mode"]})
     inp = ctx.workdir / "pb_in.ndjson"
     inp.write_text("\n".join(json.dumps(c) for c in work) + "\n")
     outp = ctx.workdir / "pb_out.ndjson"
@@ -277,11 +287,12 @@ def pb_semantic_checks(c, pis, emb, tally, desc, stats):
 # ------------------------------------------------------------------ public batch
 def qb_replay(ctx, cases, tally, attack_share, rng):
     work = []
-    for c in cases:
+    for idx, c in enumerate(cases):
         c = dict(c)
         c["attacks"] = 1 if rng.random() < attack_share else 0
         c["pick"] = rng.randrange(1 << 30)
         c["kind"] = "model"
+        c["mode"] = idx % 3
         work.append(c)
     nbase = len(work)
     for idx in range(nbase):
@@ -298,7 +309,7 @@ def qb_replay(ctx, cases, tally, attack_share, rng):
                 inn2[k]["slots"][0] = [3 - inn2[k]["slots"][0][0], 1 - inn2[k]["slots"][0][1]]
             else:
                 inn2[k]["nulls"][0] = 3 - inn2[k]["nulls"][0]
-            work.append({"inn": inn2, "addr": c["addr"], "kind": "alt", "base": idx, "slot": k, "field": fld, "attacks": 0, "pick": c["pick"]})
+            work.append({"inn": inn2, "addr": c["addr"], "kind": "alt", "base": idx, "slot": k, "field": fld, "attacks": 0, "pick": c["pick"], "mode": c["mode"]})
     inp = ctx.workdir / "qb_in.ndjson"
     inp.write_text("\n".join(json.dumps(c) for c in work) + "\n")
     outp = ctx.workdir / "qb_out.ndjson"
